@@ -152,6 +152,10 @@ def run(ctx):
     cs = fx.body("clap_complete::engine::complete::complete_subcommand")
     fl = [f for f in cs.calls_to(r"Iterator::filter$") if re.search(r"subcommands\(", expr(cs, f.args[0], 6))]
     okf = any(cb.calls_to(r"starts_with$") for f in fl for cb in closure_bodies(fx, f))
+    if not okf:
+        # loop form: for c in subcommands(cmd) { if c.get_value().starts_with(value) { scs.push(c) } }
+        pushes_ = [c for c in cs.calls_to(r"Vec(<[^>]*>)?::push$") if re.search(r"next\(into_iter\(subcommands\(", expr(cs, c.args[1], 8))]
+        okf = bool(pushes_) and all(has_bool(cs, c.bb, "T", r"^starts_with\(get_value\(") for c in pushes_)
     res.check(okf, "R18.3", "prefix-filter|subcommand", cs.where(), "subcommand candidates filtered by starts_with(value)",
               "subcommand candidates are not filtered by the word under the cursor")
     for fn_, rx in (("complete_external_subcommand", r"Vec::retain$"), ("complete_custom_arg_value", r"Vec::retain$")):
